@@ -30,7 +30,8 @@ def run(ctx, res):
     ssr.rule_decode_capacity(prog, res)
     ssr.rule_1230(prog, res)
     fieldmodel.check_handwritten(prog, res, prop="C08")
-    import re
+    import bitio
+    bitio.import_transport(prog, res, signed=True)
     g = prog.fn("df::dfs::df_msg1230_biases::encode")
     if g is not None:
         sorting._sort_rule(prog, res, g, ("signal_id",))
